@@ -272,7 +272,8 @@ class SimWorld:
             res.op, res.order, res.target, res.error, res.result = op, None, target, None, None
             try:
                 # (same client as the first time: re-placing through another client is a different mistake)
-                res.result = market.place_order(target, client=target.client) if transaction is None else transaction.place_order(target)
+                kw_ = {"force": True} if op.get("force") else {}  # forcing skips the controls, nothing else
+                res.result = market.place_order(target, client=target.client, **kw_) if transaction is None else transaction.place_order(target, **kw_)
             except FlumineException as ex:
                 res.error = "%s: %s" % (type(ex).__name__, ex)
         else:
@@ -1096,9 +1097,12 @@ def make_machine(world_cls, checks, cfg_strategy, rule_weights=None):
             self._do({"_": "book", "dt": d(st.sampled_from([50, 1000])), "rc": []})
 
         @precondition(lambda self: rw["place_existing"] > 0)
-        @rule(si=st.integers(0, 2), o=st.integers(0, 7))
-        def place_existing(self, si, o):
-            self._do({"_": "req", "op": "place_existing", "si": si, "o": o, "pool": "any"})
+        @rule(si=st.integers(0, 2), o=st.integers(0, 7), force=st.booleans())
+        def place_existing(self, si, o, force):
+            e = {"_": "req", "op": "place_existing", "si": si, "o": o, "pool": "any"}
+            if force:
+                e["force"] = True
+            self._do(e)
 
         @precondition(lambda self: rw["txn"] > 0)
         @rule(data=st.data())
